@@ -1,6 +1,6 @@
 """C19 - see DESIGN.md 5/C19 (Lifecycle.tla)."""
 from harness import core
-from checks import suite_lifecycle, suite_drolifecycle
+from checks import suite_lifecycle, suite_drolifecycle, suite_userdata
 
 
 def main(tier):
@@ -14,6 +14,8 @@ def main(tier):
                        'oracle = the same library on a fresh single-constraint model (relational, as the property is stated)']
     suite_lifecycle.run(rep, tier, props=('C19',))
     suite_drolifecycle.run(rep, tier, props=('C19',))
+    # user arrays of every kind in every role; the same models formulated in fresh interpreters with different hash seeds
+    suite_userdata.run(rep, tier, props=('C19',))
     return rep.finish()
 
 
